@@ -141,3 +141,109 @@ func VerifC23_SplitInner() {
 	}
 	verifReach("end")
 }
+
+// Ordered range iteration over a small tree built directly from nodes: a root
+// with 2..3 leaves of 1..2 keys (or, shape 2, a three-level tree of four
+// one-key leaves).  Keys and separators are symbolic one-byte strings subject
+// only to the tree's invariant: child i of an inner node holds keys in
+// [sep[i-1], sep[i]).  A separator need not be a live key (after a remove it
+// is not).  Start and end bounds are nil or symbolic.
+func verifC23Leaf(n int, lo []byte) (*LeafNode, [][]byte, []byte) {
+	l := &LeafNode{numKeys: int16(n)}
+	var ks [][]byte
+	for i := 0; i < n; i++ {
+		k := verifBytes("key", 1)
+		if lo != nil {
+			verifAssume(bytes.Compare(lo, k) <= 0) // at or above the lower separator (first key) / strictly above the previous key
+			if i > 0 {
+				verifAssume(bytes.Compare(lo, k) < 0)
+			}
+		}
+		l.keys[i] = k
+		ks = append(ks, k)
+		lo = k
+	}
+	return l, ks, lo
+}
+
+func verifC23Bound(name string) []byte {
+	if verifChoose(name+"nil", 2) == 1 {
+		return nil
+	}
+	return verifBytes(name, 1)
+}
+
+func VerifC23_Iterate() {
+	var root Node
+	var all [][]byte
+	nextSep := func(last []byte) []byte {
+		s := verifBytes("sep", 1)
+		verifAssume(bytes.Compare(last, s) < 0) // strictly above every key to its left
+		return s
+	}
+	if verifChoose("shape", 2) == 0 {
+		nl := 2 + verifChoose("leaves", 2)
+		in := &InnerNode{numKeys: int16(nl - 1), height: 1}
+		var lo []byte
+		for c := 0; c < nl; c++ {
+			if c > 0 {
+				lo = nextSep(lo)
+				in.keys[c-1] = lo
+			}
+			leaf, ks, last := verifC23Leaf(1+verifChoose("n", 2), lo)
+			in.childNodes[c] = leaf
+			all = append(all, ks...)
+			lo = last
+		}
+		root = in
+	} else {
+		top := &InnerNode{numKeys: 1, height: 2}
+		var lo []byte
+		for g := 0; g < 2; g++ {
+			in := &InnerNode{numKeys: 1, height: 1}
+			for c := 0; c < 2; c++ {
+				if g > 0 || c > 0 {
+					lo = nextSep(lo)
+					if c == 0 {
+						top.keys[0] = lo
+					} else {
+						in.keys[0] = lo
+					}
+				}
+				leaf, ks, last := verifC23Leaf(1, lo)
+				in.childNodes[c] = leaf
+				all = append(all, ks...)
+				lo = last
+			}
+			top.childNodes[g] = in
+		}
+		root = top
+	}
+	start, end := verifC23Bound("start"), verifC23Bound("end")
+	asc := verifChoose("asc", 2) == 1
+	// the ordered map's answer
+	var want [][]byte
+	for _, k := range all {
+		if (start == nil || bytes.Compare(start, k) <= 0) && (end == nil || bytes.Compare(k, end) < 0) {
+			want = append(want, k)
+		}
+	}
+	if !asc {
+		for i, j := 0, len(want)-1; i < j; i, j = i+1, j-1 {
+			want[i], want[j] = want[j], want[i]
+		}
+	}
+	it := newIterator(root, start, end, asc, nil, 0)
+	var got [][]byte
+	for steps := 0; it.Valid() && steps <= len(all); steps++ {
+		got = append(got, it.Key())
+		it.Next()
+	}
+	verifAssert(!it.Valid(), "iteration ends after at most as many steps as there are keys")
+	same := len(got) == len(want)
+	for i := 0; same && i < len(got); i++ {
+		same = bytes.Equal(got[i], want[i])
+	}
+	verifAssert(same, "range iteration yields exactly the keys of the ordered map in [start, end), in order")
+	verifReach("end")
+}
